@@ -100,6 +100,19 @@ def hist_scenarios(histories, per_scenario, prop, rng, small=0):
                     if (s + i) % 2 == 0:
                         running.append(stmt(name, "/* no longer managed */"))
                     policies[name] = exp(False, False, "none", why="unmarked")
+            # on every second router: policies whose evaluation meets IRR errors that the evaluator sinks by design (the
+            # route queries of one member AS answered F / E): they are installed with what the other members originate,
+            # and whatever the evaluator remembers of those errors must not touch the policies evaluated after them
+            if (s // max(1, per_scenario)) % 2 == 0 or len(chunk) <= 2:
+                for j in range(3):
+                    name = f"noisy-{j}"
+                    expr = irr.asset_with(["a", "b"] if j % 2 == 0 else ["d"], ["c"])
+                    asn_bad = f"AS{64900 + j}"
+                    irr.db["as_sets"][expr].append(asn_bad)
+                    irr.db["routes4"][asn_bad] = prefixes(["r9"]); irr.db["routes6"][asn_bad] = []
+                    irr.db["errors"][f"!g{asn_bad}"] = ["F", "E", "F"][j]; irr.db["errors"][f"!6{asn_bad}"] = ["F", "E", "F"][j]
+                    running.append(stmt(name, f"/* bgpfu-fltr: {expr} */"))
+                    policies[name] = exp(True, True, "ok", ["a", "b"] if j % 2 == 0 else ["d"], ["c"], expr, "one member's route queries answered with an error (sunk)")
             runs.append({"running": running, "irr": irr.db, "faults": [], "repeat": k == depth,
                          "expect": {"prop": prop, "c16": False, "policies": policies}})
         out.append({"case": f"{prop}-h{s}", "instance": "bgpfu", "eph0": [], "runs": runs, "meta": {"family": "hist", "policies": len(chunk)}})
@@ -411,6 +424,29 @@ def daemon_scenarios(prop):
                               "expect": {"prop": prop, "c16": False, "policies": policies}}],
                     "meta": {"family": "daemon", "sessions": sessions, "reset_before": reset_before}})
     return out
+
+TRICKY_NAMES = ["AT&amp;T-in", "&lt;peer&gt;-in", "&#65;S65000-in", "a&amp;amp;b", "R&D; lab", "x]]>y", "quote\"s'", "caf\u00e9-\u6f22", "sl/ash\\back",
+                "trailing-dot.", "-leading-dash", "100%", "{brace}[bracket]", "tab\there", "semi;colon", "#hash", "UPPER-lower", "p" * 200]
+
+def name_scenarios(prop):
+    """C10 at the level of the agent (policy names and comments travel from the router's configuration through the agent
+    into its requests): names containing text that looks like an entity or character reference, the delimiter, quotes,
+    non-ASCII text, 200 characters.  Each policy is created, changed and removed - by exactly its name."""
+    runs = []
+    for k in range(4):
+        irr = Irr(); running = []; policies = {}
+        for i, name in enumerate(TRICKY_NAMES):
+            if k == 2 or (k == 3):
+                running.append(stmt(name, "/* no longer managed */"))
+                policies[name] = exp(False, False, "none", why="unmarked")
+            else:
+                tgt = (["a"], ["c"]) if (k + i) % 2 == 0 else (["a", "b"], [])
+                expr = irr.asset_with(*tgt)
+                running.append(stmt(name, f"/* bgpfu-fltr: {expr} */"))
+                policies[name] = exp(True, True, "ok", tgt[0], tgt[1], expr, "tricky name")
+        runs.append({"running": running, "irr": irr.db, "faults": [], "repeat": k == 3,
+                     "expect": {"prop": prop, "c16": True, "policies": policies}})
+    return [{"case": f"{prop}-names", "instance": "bgpfu", "eph0": [], "runs": runs, "meta": {"family": "names"}}]
 
 def boundary_scenarios(prop):
     """Boundary values of the prefix space: the default route, everything up to /24 (/48), host routes, ranges that reach
